@@ -602,6 +602,32 @@ func (e *OwnEngine) doCall(fn *ssa.Function, call *ssa.Call) {
 				return
 			}
 		}
+		// a function value of some other type: any library function or function
+		// literal of identical signature may be the target (signature-based
+		// resolution, an over-approximation). A literal's free variables see
+		// whatever the closure value carries (MakeClosure flows its bindings
+		// into the value's set).
+		if sig, ok := cc.Value.Type().Underlying().(*types.Signature); ok {
+			n := 0
+			for _, cand := range e.funcs {
+				if cand.Signature.Recv() != nil || cand.Blocks == nil || !types.Identical(cand.Signature, sig) {
+					continue
+				}
+				if cand.Pkg != c.SLib && cand.Pkg != c.SCLI && !(cand.Parent() != nil) {
+					continue
+				}
+				for _, fv := range cand.FreeVars {
+					if pointerLike(fv.Type()) {
+						e.flow(e.P(fv), e.valSet(cc.Value))
+					}
+				}
+				e.bindCall(fn, call, cand, cc.Args)
+				n++
+			}
+			if n > 0 {
+				return
+			}
+		}
 		e.unknown["dynamic call in "+fname(fn)] = call.Pos()
 		return
 	}
